@@ -82,6 +82,14 @@ def handle (line : String) : String :=
         | some i => if decode16 w = some i then "yes" else s!"no {repr (decode16 w)}"
       | _, _ => "bad-args"
     | [] => "bad-args"
+  | "legal32" :: name :: ops =>
+    match allSome (ops.map parseOpnd) with
+    | some ops => if legal32 name ops then "yes" else "no"
+    | none => "bad-args"
+  | "legal16" :: name :: ops =>
+    match allSome (ops.map parseOpnd) with
+    | some ops => if legal16 name ops then "yes" else "no"
+    | none => "bad-args"
   | ["dec16", h] =>
     match h.toNat? with
     | some h =>
